@@ -79,8 +79,10 @@ func (c *Conn) CloseRead(ctx context.Context) context.Context {
 		defer cancel()
 		defer c.close()
 		_, _, err := c.Reader(ctx)
-		if err == nil {
-			c.Close(StatusPolicyViolation, "unexpected data message")
+		if err == nil && c.casClosing() {
+			// Not Close: it would wait for this very goroutine to exit. The deferred
+			// close, cancel and closeReadDone do the rest.
+			c.closeHandshake(StatusPolicyViolation, "unexpected data message")
 		}
 	}()
 	return ctx
